@@ -21,7 +21,7 @@ def harness_pairs(chk, progs, tag):
         o = json.loads(line)
         chk.add("evaluations")
         if "panic" in o:
-            chk.report("panic:%s" % o["panic"]["loc"].replace("/repo/", ""), "decompiling panics: %s\n%s" % (o["panic"]["msg"], o["input"]), o)
+            chk.report("panic:%s" % lib.norm_loc(o["panic"]["loc"]), "decompiling panics: %s\n%s" % (o["panic"]["msg"], o["input"]), o)
         elif "rejected" in o or "unsupported" in o:
             chk.add("rejected")
         else:
